@@ -108,7 +108,24 @@ def onset_local(rule, year):
         datetime.timedelta(seconds=rule[-1])
 
 
+RRULE_SPELLING = [0]      # set per run from the scenario
+
+
 def rrule_text(rule):
+    """The rule as RRULE parameters, in one of several equivalent spellings
+    (explicit or implicit plus sign, parameter order, letter case)."""
+    t = _rrule_text(rule)
+    v = RRULE_SPELLING[0]
+    if v == 1:
+        t = t.replace("BYDAY=+", "BYDAY=")
+    elif v == 2:
+        t = ";".join(reversed(t.split(";")))
+    elif v == 3:
+        t = t.lower()
+    return t
+
+
+def _rrule_text(rule):
     k = rule[0]
     if k == "M":
         _, m, w, d, _t = rule
@@ -307,6 +324,7 @@ def generate(cls, rng):
               multi=rng.random() < 0.4, other=other, other_form=other_form,
               dormant=rng.choice([None, None, "after", "before"]),
               decor=rng.random() < 0.3,
+              rrule_spelling=rng.choice([0, 0, 0, 1, 2, 3]),
               prop_order=rng.choice([0, 0, 0, 1, 2, 3, 4, 5]),
               calendars=rng.choice(["one", "one", "one", "each"]),
               fwd=rng.choice([0, 0, 0, 6, rng.randrange(7)]),
@@ -375,6 +393,7 @@ def zone_ids(sc):
 
 
 def build_text(sc):
+    RRULE_SPELLING[0] = sc.get("rrule_spelling", 0)
     lines = ["BEGIN:VCALENDAR", "VERSION:2.0"]
     id1, id2 = zone_ids(sc)
     zones = [(id1, sc["spec"], sc["form"])]
